@@ -1244,3 +1244,102 @@ UNITS["pixels"] = {
                      "        },")},
     ],
 }
+
+# ------------------------------------------------------------------------------------------------
+# Compositing glue (C02, C09, C19, C05): AsepriteFile::frame_image / write_cel / layer_image on the real text,
+# over the contracts of the two rasterisers (re-verified in this file) and Layer::is_visible
+# ------------------------------------------------------------------------------------------------
+def _compose_items():
+    tm = []
+    for it in UNITS["tilemap"]["items"]:
+        it = dict(it)
+        if it.get("kind") == "struct" and it.get("name") == "Tileset":
+            it["keep"] = ["tile_size", "pixels"]
+            it["rewrites"] = [("Option<P>", "Option<Pixels>")]
+        tm.append(it)
+    raw = [it for it in UNITS["raster_raw"]["items"] if not (it.get("kind") == "struct" and it.get("name") == "CelCommon")]
+    vis = [it for it in UNITS["visible"]["items"] if it.get("kind") == "fn" and it["name"] == "is_visible"]
+    return tm, raw, vis
+_TM, _RAW, _VIS = _compose_items()
+CANVAS = "old(image).w() <= 65535, old(image).h() <= 65535,"
+UNITS["compose"] = {
+    "prelude_sections": ["arch", "image", "tilemap_spec", "tilemap_raster_spec", "compose_shims", "raster_spec", "layer_flags", "forest", "compose_spec"],
+    "items": _TM + _RAW + [
+        {"kind": "enum", "file": "layer", "name": "LayerType", "attrs": "#[derive(Clone, Copy)]\n"},
+        {"kind": "struct", "file": "layer", "name": "LayerData", "keep": ["flags", "child_level", "blend_mode", "opacity", "layer_type"]},
+        {"kind": "struct", "file": "layer", "name": "LayersData", "keep": ["layers", "parents"]},
+        {"kind": "index_impl_check", "file": "layer", "type": "LayersData", "body": "{&self.layers[index as usize]}"},
+        {"kind": "struct", "file": "cel", "name": "CelId", "keep": None, "attrs": "#[derive(Clone, Copy)]\n"},
+        {"kind": "struct", "file": "cel", "name": "ImageContent", "keep": None, "header": "struct ImageContent ", "rewrites": [("pub pixels: P", "pub pixels: Pixels")]},
+        {"kind": "enum", "file": "cel", "name": "CelContent", "rewrites": [("enum CelContent<P>", "enum CelContent"), ("ImageContent<P>", "ImageContent")]},
+        {"kind": "struct", "file": "cel", "name": "RawCel", "keep": ["data", "content"], "header": "struct RawCel ", "rewrites": [("CelContent<P>", "CelContent")]},
+        {"kind": "struct", "file": "cel", "name": "CelsData", "keep": ["data", "num_frames"], "header": "struct CelsData ", "rewrites": [("RawCel<P>", "RawCel")]},
+        {"kind": "struct", "file": "file", "name": "AsepriteFile", "keep": ["width", "height", "num_frames", "layers", "framedata", "tilesets"], "rewrites": [("CelsData<Pixels>", "CelsData")]},
+        {"kind": "struct", "file": "layer", "name": "Layer", "keep": None},
+    ] + _VIS + [
+        {"kind": "fn", "file": "layer", "name": "data", "impl_of": "Layer", "impl_header": "<'a> Layer<'a>", "ret": "r",
+         "requires": "        (self.layer_id as int) < self.file.layers.layers.len(),",
+         "ensures": "        *r == self.file.layers.layers[self.layer_id as int],",
+         "body_rewrites": [("&self.file.layers[self.layer_id]", "&self.file.layers.layers[self.layer_id as usize]")]},
+        {"kind": "fn", "file": "layer", "name": "blend_mode", "impl_of": "Layer", "impl_header": "<'a> Layer<'a>", "ret": "r",
+         "requires": "        (self.layer_id as int) < self.file.layers.layers.len(),",
+         "ensures": "        r == self.file.layers.layers[self.layer_id as int].blend_mode,"},
+        {"kind": "fn", "file": "layer", "name": "opacity", "impl_of": "Layer", "impl_header": "<'a> Layer<'a>", "ret": "r",
+         "requires": "        (self.layer_id as int) < self.file.layers.layers.len(),",
+         "ensures": "        r == self.file.layers.layers[self.layer_id as int].opacity,"},
+        {"kind": "fn", "file": "layer", "name": "layer_type", "impl_of": "Layer", "impl_header": "<'a> Layer<'a>", "ret": "r",
+         "requires": "        (self.layer_id as int) < self.file.layers.layers.len(),",
+         "ensures": "        r == self.file.layers.layers[self.layer_id as int].layer_type,"},
+        {"kind": "fn", "file": "cel", "name": "cel", "key": "CelsData::cel", "impl_of": "CelsData", "impl_filter": r"impl<P>\s+CelsData<P>", "impl_header": "CelsData", "ret": "r",
+         "sig_rewrites": [("RawCel<P>", "RawCel")],
+         "requires": "        (cel_id.frame as int) < self.data.len(),",
+         "ensures": ("        (r is Some) == (self.at(cel_id.frame as int, cel_id.layer as int) is Some),\n"
+                     "        r is Some ==> *(r->0) == self.at(cel_id.frame as int, cel_id.layer as int)->0,")},
+        {"kind": "fn", "file": "file", "name": "num_layers", "impl_of": "AsepriteFile", "ret": "r",
+         "requires": "        self.layers.layers.len() <= 65535,", "ensures": "        r as int == self.layers.layers.len(),"},
+        {"kind": "fn", "file": "file", "name": "layer", "key": "AsepriteFile::layer", "impl_of": "AsepriteFile", "ret": "r",
+         "requires": "        self.layers.layers.len() <= 65535, (id as int) < self.layers.layers.len(),",
+         "ensures": "        r.layer_id == id, r.file == self,"},
+        {"kind": "fn", "file": "file", "name": "tilesets", "impl_of": "AsepriteFile", "ret": "r", "ensures": "        r == &self.tilesets,"},
+        {"kind": "fn", "file": "file", "name": "write_cel", "impl_of": "AsepriteFile", "rules": ["R1", "R6", "R14", "R15"],
+         "sig_rewrites": [("RawCel<Pixels>", "RawCel")],
+         "requires": ("        file_ok(self), cel_ok(self, cel), " + CANVAS),
+         "ensures": ("        final(image).w() == old(image).w(), final(image).h() == old(image).h(),\n"
+                     "        forall|cx: int, cy: int| 0 <= cx < old(image).w() && 0 <= cy < old(image).h() ==>\n"
+                     "            #[trigger] final(image).at(cx, cy) == cel_px(self, cel, old(image).at(cx, cy), cx, cy),"),
+         "decreases": "(if cel.content is Linked { 1int } else { 0int })"},
+        {"kind": "fn", "file": "file", "name": "layer_image", "impl_of": "AsepriteFile", "ret": "r",
+         "requires": "        file_ok(self), (cel_id.frame as int) < self.framedata.data.len(),",
+         "ensures": ("        r.w() == self.width, r.h() == self.height,\n"
+                     "        forall|cx: int, cy: int| 0 <= cx < r.w() && 0 <= cy < r.h() ==>\n"
+                     "            #[trigger] r.at(cx, cy) == (match self.framedata.at(cel_id.frame as int, cel_id.layer as int) {\n"
+                     "                Some(c) => cel_px(self, &c, Rgba([0u8, 0u8, 0u8, 0u8]), cx, cy),\n"
+                     "                None => Rgba([0u8, 0u8, 0u8, 0u8]),\n"
+                     "            }),")},
+        {"kind": "fn", "file": "file", "name": "frame_image", "impl_of": "AsepriteFile", "ret": "r", "rules": ["R1", "R2", "R6"],
+         "requires": "        file_ok(self), (frame as int) < self.framedata.data.len(),",
+         "ensures": ("        r.w() == self.width, r.h() == self.height,\n"
+                     "        forall|cx: int, cy: int| 0 <= cx < r.w() && 0 <= cy < r.h() ==>\n"
+                     "            #[trigger] r.at(cx, cy) == frame_px(self, cels_of(self.framedata.data[frame as int]@), cels_of(self.framedata.data[frame as int]@).len() as int, cx, cy),"),
+         "body_rewrites": [("for (layer_id, cel) in self.framedata.frame_cels(frame)", "for (layer_id, cel) in it: self.framedata.frame_cels(frame)")],
+         "hints": [("for (layer_id, cel) in", "        proof { lemma_cels_of(self.framedata.data[frame as int]@); }", "before"),
+                   ("self.layer(layer_id).is_visible()",
+                    "            proof {\n"
+                    "                let k = it.index@ as int;\n"
+                    "                let e = cels_of(self.framedata.data[frame as int]@)[k];\n"
+                    "                assert(it.snapshot@.remaining()[k].0 == e.0 && *it.snapshot@.remaining()[k].1 == e.1);\n"
+                    "                assert(layer_id == e.0 && *cel == e.1);\n"
+                    "                assert(self.framedata.at(frame as int, e.0 as int) == Some(e.1));\n"
+                    "            }", "before")],
+         "loops": {1: ("            invariant\n"
+                       "                file_ok(self), (frame as int) < self.framedata.data.len(),\n"
+                       "                image.w() == self.width, image.h() == self.height,\n"
+                       "                fc_matches(it.snapshot@.remaining(), cels_of(self.framedata.data[frame as int]@)),\n"
+                       "                forall|k: int| 0 <= k < cels_of(self.framedata.data[frame as int]@).len() ==> {\n"
+                       "                    let e = #[trigger] cels_of(self.framedata.data[frame as int]@)[k];\n"
+                       "                    0 <= (e.0 as int) < self.framedata.data[frame as int]@.len() && self.framedata.data[frame as int]@[e.0 as int] == Some(e.1)\n"
+                       "                },\n"
+                       "                forall|cx: int, cy: int| 0 <= cx < image.w() && 0 <= cy < image.h() ==>\n"
+                       "                    #[trigger] image.at(cx, cy) == frame_px(self, cels_of(self.framedata.data[frame as int]@), it.index@ as int, cx, cy),")}},
+    ],
+}
